@@ -79,16 +79,16 @@ property of every instance holds the value most recently assigned to it, locally
 remote Set - nothing else ever writes it. -/
 theorem reachable_state_refines_spec {D : Decls} {W : World} (hD : elaborate D = some W)
     (hA : AttrConsistent W) (hM : Modelled W) {cfg : Cfg} (hc : cfg.Sound) {h : List Op} (hg : GoodHist h) :
-    Sim cfg W (Obj.Props.run cfg W h) (Obj.PropsSpec.run (sdeclOf W) h) :=
+    Sim cfg W (Obj.Props.run cfg W h) (specRun cfg W h) :=
   run_sim (elaborate_good hD) hA hM hc hg
 
 /-! ### 1. Get returns the last write, typed as declared -/
 
 theorem get_returns_last_write {D : Decls} {W : World} (hD : elaborate D = some W)
     (hA : AttrConsistent W) (hM : Modelled W) {cfg : Cfg} (hc : cfg.Sound) {h : List Op} (hg : GoodHist h)
-    (o : Nat) (i p : Str) (hi : i ≠ []) (ho : (Obj.PropsSpec.run (sdeclOf W) h).attached o = true)
+    (o : Nat) (i p : Str) (hi : i ≠ []) (ho : (specRun cfg W h).attached o = true)
     {sp : SProp} (hsp : (sdeclOf W).find i p = some sp) (hr : sp.readable = true)
-    {v : PVal} (hv : (Obj.PropsSpec.run (sdeclOf W) h).val o i p = some v)
+    {v : PVal} (hv : (specRun cfg W h).val o i p = some v)
     (ht : HasTypeSig sp.sig v = true) :
     ∃ sg, step cfg W (Obj.Props.run cfg W h) (.get o i p) = (Obj.Props.run cfg W h, [.retV sg v.plain]) ∧
       (IsBasic sp.sig = true → sg = sp.sig) := by
@@ -107,9 +107,9 @@ theorem get_returns_last_write {D : Decls} {W : World} (hD : elaborate D = some 
 
 theorem access_matrix {D : Decls} {W : World} (hD : elaborate D = some W)
     (hA : AttrConsistent W) (hM : Modelled W) {cfg : Cfg} (hc : cfg.Sound) {h : List Op} (hg : GoodHist h)
-    (o : Nat) (i p : Str) (hi : i ≠ []) (ho : (Obj.PropsSpec.run (sdeclOf W) h).attached o = true) :
+    (o : Nat) (i p : Str) (hi : i ≠ []) (ho : (specRun cfg W h).attached o = true) :
     let st := Obj.Props.run cfg W h
-    let s := Obj.PropsSpec.run (sdeclOf W) h
+    let s := specRun cfg W h
     -- Get: a value only for a declared readable property, an error otherwise; never a state change
     (GetAllowed (sdeclOf W) s o i p (step cfg W st (.get o i p)).2 ∧ (step cfg W st (.get o i p)).1 = st) ∧
     -- Set: success (with the new state) iff declared, writeable and well typed; otherwise an error reply
@@ -117,7 +117,7 @@ theorem access_matrix {D : Decls} {W : World} (hD : elaborate D = some W)
     (∀ v, wireOk v = true →
       SetAllowed (sdeclOf W) o i p v (step cfg W st (.set o i p v)).2 ∧
       (IsErr (step cfg W st (.set o i p v)).2 → (step cfg W st (.set o i p v)).1 = st) ∧
-      Sim cfg W (step cfg W st (.set o i p v)).1 (next (sdeclOf W) s (.set o i p v))) ∧
+      Sim cfg W (step cfg W st (.set o i p v)).1 (next (sdeclOf W) s (.set o i p v) (step cfg W st (.set o i p v)).2)) ∧
     -- GetAll: an error for an interface the object does not have; never a state change
     (GetAllAllowed (sdeclOf W) s o i (step cfg W st (.getAll o i)).2 ∧
       (step cfg W st (.getAll o i)).1 = st) := by
@@ -144,8 +144,8 @@ write-only one) with the right typed values (unconditionally); and a dictionary 
 properties of `i` hold values of their types. -/
 theorem getall_exact {D : Decls} {W : World} (hD : elaborate D = some W)
     (hA : AttrConsistent W) (hM : Modelled W) {cfg : Cfg} (hc : cfg.Sound) {h : List Op} (hg : GoodHist h)
-    (o : Nat) (i : Str) (hi : i ≠ []) (ho : (Obj.PropsSpec.run (sdeclOf W) h).attached o = true) :
-    GetAllAllowed (sdeclOf W) (Obj.PropsSpec.run (sdeclOf W) h) o i
+    (o : Nat) (i : Str) (hi : i ≠ []) (ho : (specRun cfg W h).attached o = true) :
+    GetAllAllowed (sdeclOf W) (specRun cfg W h) o i
       (step cfg W (Obj.Props.run cfg W h) (.getAll o i)).2 ∧
     (step cfg W (Obj.Props.run cfg W h) (.getAll o i)).1 = Obj.Props.run cfg W h :=
   (access_matrix hD hA hM hc hg o i [] hi ho).2.2
@@ -159,7 +159,7 @@ remote Set the same is part of `access_matrix` through `SetAllowed`.) -/
 theorem changed_signal {D : Decls} {W : World} (hD : elaborate D = some W)
     (hA : AttrConsistent W) (hM : Modelled W) {cfg : Cfg} (hc : cfg.Sound) {h : List Op} (hg : GoodHist h)
     (o : Nat) (a : Str) (v : PVal) :
-    AssignAllowed (sdeclOf W) (Obj.PropsSpec.run (sdeclOf W) h) o a v
+    AssignAllowed (sdeclOf W) (specRun cfg W h) o a v
       (step cfg W (Obj.Props.run cfg W h) (.assign o a v)).2 ∧
     ((step cfg W (Obj.Props.run cfg W h) (.assign o a v)).2.filter isSignal).length ≤ 1 :=
   ⟨(assign_step hc (reachable_state_refines_spec hD hA hM hc hg) o a v).2, assign_signal_count _ _ _ _ _ _⟩
@@ -206,7 +206,7 @@ example :
       [.retD [(sBC, ['i'], .int 7), (sRO, ['s'], .str ['x'])]] ∧
     (step Cfg.repaired exWorld (Obj.Props.run Cfg.repaired exWorld exHist) (.getAll 0 "org.zzz".toList)).2 =
       [.err .unknownIface] ∧
-    (Obj.PropsSpec.run (sdeclOf exWorld) exHist).val 0 sA sBC = some (.int 7) := by
+    (specRun Cfg.repaired exWorld exHist).val 0 sA sBC = some (.int 7) := by
   decide
 
 /-! ### witnesses: the code before the repairs violates the statements (F25, F26, F32, wrong-typed Set) -/
@@ -215,7 +215,7 @@ example :
 theorem original_violates_get_returns_last_write :
     (step Cfg.original exWorld (Obj.Props.run Cfg.original exWorld (exHist.take 4)) (.get 0 sA sBC)).2 =
       [.retV ['i'] (.int 2)] ∧
-    (Obj.PropsSpec.run (sdeclOf exWorld) (exHist.take 4)).val 0 sA sBC = some (.int 1) := by
+    (specRun Cfg.original exWorld (exHist.take 4)).val 0 sA sBC = some (.int 1) := by
   decide
 
 /-- F26: the original GetAll(org.a) stops at the derived class and omits the base class's `ro`. -/
